@@ -549,7 +549,7 @@ func r19_6(c *RC) {
 				} else {
 					c.Bad(key, s.Pos(), "the constructor attaches %s to a group that is not derived from the policy's user name", fname)
 				}
-			case s.Fn.Name() == "input":
+			case ownerName(p, s.Fn) == "input":
 				// lazy path: guarded by field == nil
 				guarded := false
 				for _, ce := range controllingEdges(st.Block()) {
